@@ -40,10 +40,10 @@ def _mk(inp):
 def _make_mw(inp):
     kw = dict(allow_inplace_modification=inp["inplace"])
     if inp["mw"] == "alpha":
-        return SortFieldsAlphabeticallyMiddleware(**kw)
+        return libgen.construct(SortFieldsAlphabeticallyMiddleware, kw, inp.get("keys"))
     if inp["mw"] == "custom":
-        return SortFieldsCustomMiddleware(order=tuple(inp["order"]), case_sensitive=inp["case_sensitive"], **kw)
-    return NormalizeFieldKeys(**kw)
+        return libgen.construct(SortFieldsCustomMiddleware, dict(kw, order=tuple(inp["order"]), case_sensitive=inp["case_sensitive"]), (inp.get("keys"), inp["order"]))
+    return libgen.construct(NormalizeFieldKeys, kw, inp.get("keys"))
 
 
 def o_fields(inp):
